@@ -14,6 +14,11 @@ def run(chk):
     hook_rule(chk)
     # C13.d operand-flag translation of vector-index memory operands in the x86 validator
     vm_flags_rule(chk)
+    # C13.e AArch64 vector arrangements: encoder tables vs database, database self-consistency
+    from lib import a64common, a64vec
+    A = a64common.load(chk)
+    a64vec.run(chk, A)
+    a64vec.run_db_q(chk)
     return chk.finish(
         level="other",
         explanation=("(a) the generated signature/name/RW tables regenerate byte-identically from db/; (b) for every instruction id of both "
